@@ -52,13 +52,24 @@ func materialise(root string, c impCase, variant int) (extraTasks []string) {
 		if variant == 1 && len(entries) > 0 {
 			entries = append(entries, entries[0]) // the same file imported twice
 		}
-		if variant == 2 && i == c.NF {
-			// a directory import: every *.yaml child of the directory
+		if variant >= 2 && i == c.NF {
+			// a directory import: every *.yaml child of the directory; in variant 3 the first child
+			// has an import of its own (a file next to the directory), the second has none
 			dd := filepath.Join(filepath.Dir(p), fmt.Sprintf("dir%d", i))
 			_ = os.MkdirAll(dd, 0o755)
-			for _, n := range []string{"a", "b"} {
+			for _, n := range []string{"a", "b", "x"} {
 				tn := fmt.Sprintf("t%d%s", i, n)
-				_ = ioutil.WriteFile(filepath.Join(dd, n+".yaml"), []byte(fmt.Sprintf("tasks:\n  %s:\n    command: [\"echo %s\"]\n", tn, tn)), 0o644)
+				body := fmt.Sprintf("tasks:\n  %s:\n    command: [\"echo %s\"]\n", tn, tn)
+				target := filepath.Join(dd, n+".yaml")
+				switch {
+				case n == "x" && variant != 3:
+					continue
+				case n == "x":
+					target = filepath.Join(filepath.Dir(p), fmt.Sprintf("x%d.yaml", i))
+				case n == "a" && variant == 3:
+					body = fmt.Sprintf("import:\n  - ../x%d.yaml\n", i) + body
+				}
+				_ = ioutil.WriteFile(target, []byte(body), 0o644)
 				inClosure := false
 				for _, k := range c.Closure {
 					if k == i {
@@ -138,7 +149,7 @@ func CheckC17(env *core.Env, rep *core.Report) *core.Result {
 	core.Parallel(len(sel), 16, func(i int) {
 		c := sel[i]
 		root := env.Sub("imp")
-		variant := i % 3
+		variant := i % 4
 		extra := materialise(root, c, variant)
 		rootArg := filepath.Join(root, filePath(1))
 		if i%2 == 1 {
@@ -146,7 +157,7 @@ func CheckC17(env *core.Env, rep *core.Report) *core.Result {
 		}
 		res := e.run(root, "", 10*time.Second, "-c", rootArg, "list", "tasks")
 		atomic.AddInt64(&n, 1)
-		detail := map[string]interface{}{"case": c, "root_argument": rootArg, "variant": []string{"plain", "entry repeated", "directory import"}[variant], "stdout": res.Stdout, "stderr": tailS(res.Stderr, 500), "exit": res.Exit}
+		detail := map[string]interface{}{"case": c, "root_argument": rootArg, "variant": []string{"plain", "entry repeated", "directory import", "directory import with a child that imports"}[variant], "stdout": res.Stdout, "stderr": tailS(res.Stderr, 500), "exit": res.Exit}
 		add := func(kind, what string) {
 			rep.Add(core.Finding{Prop: "C17", Key: "C17:imports:" + kind, What: what + fmt.Sprintf(" [imports %v, health %v]", c.Imports, c.Health), Detail: detail})
 		}
@@ -319,7 +330,7 @@ func CheckC17(env *core.Env, rep *core.Report) *core.Result {
 				Detail: map[string]interface{}{"split": split, "list": res.Stdout, "run": run.Stdout, "stderr": tailS(run.Stderr, 300)}})
 		}
 	}
-	return e.result("model_checking", int(n), len(sel)+len(rcases), "every import graph over 2 files and (quick ~9%, thorough all) over 3 files - every edge set incl. self-loops and cycles - x one file missing / unparsable at every position, from ImportsGen.tla with the intended closure; materialised as nested directories (file i at depth (i-1) mod 3, relative import paths), a third with a repeated entry and a third with a directory import; seeded random graphs of 4..6 files; all 16 splits of {task, task, context, variable} between the global and the project file",
+	return e.result("model_checking", int(n), len(sel)+len(rcases), "every import graph over 2 files and (quick ~9%, thorough all) over 3 files - every edge set incl. self-loops and cycles - x one file missing / unparsable at every position, from ImportsGen.tla with the intended closure; materialised as nested directories (file i at depth (i-1) mod 3, relative import paths), a quarter with a repeated entry, a quarter with a directory import and a quarter with a directory import one of whose files has an import of its own; seeded random graphs of 4..6 files; all 16 splits of {task, task, context, variable} between the global and the project file",
 		map[string]interface{}{"model_cases": len(cases), "cases_run": len(sel), "random_graphs": len(rcases), "global_splits": 16},
 		[]string{"URL imports are not exercised (no network)", "loading must terminate within 10 s (nominal: milliseconds); the model proves termination, so a timeout is a verdict"})
 }
